@@ -86,6 +86,89 @@ func properties() map[string]*PropertySpec {
 		Harnesses: []HarnessSpec{
 			eng("H_C08_endings", "ended", "9 endings (EOF, reset, Unbind, malformed, unsupported, read timeout, panic on the read loop, Stop mid-stream, SetReadDeadline failure) x 0..2 handlers in flight held by gates x unbind route or not; deterministic eager schedule plus the gate-controlled phases", ""),
 		}})
+	add(&PropertySpec{ID: "C06",
+		Functions: "(*conn).serveRequests, serveRequests$1, (*conn).readRequest, newRequest, newResponseWriter, (*Mux).serve",
+		Outside:   []string{"pipelines longer than 3 requests; hundreds of simultaneous connections (connections share no state in serveRequests)", "'without waiting' is decided under the late schedule (spawned handlers run only once the read loop blocks or ends): every handler must observe that all M frames had already been read"},
+		Harnesses: []HarnessSpec{
+			nat("H_C06_numbering", "numbered", "1..3 frames of symbolic kind, optional read error at the end; late schedule", ""),
+			nat("H_C03_pairing", "paired", "eager schedule: request j = j-th frame, writer/request pairing", ""),
+		}})
+	add(&PropertySpec{ID: "C13",
+		Functions: "(*conn).serveRequests (StartTLS branch), (*Request).StartTLS, (*conn).initConn, newResponseWriter, (*ResponseWriter).Write",
+		Outside:   []string{"that bytes through a TLS connection are protected and that the handshake reads the client's first byte from the raw socket is crypto/tls's contract (§5.5)", "earlier in-flight handlers still holding the plaintext writer (RFC 4511 §4.14.1 forbids pipelining around StartTLS)", "many sessions upgrading in parallel (sessions share no state)"},
+		Harnesses: []HarnessSpec{
+			nat("H_C13_starttls", "starttls", "StartTLS at every position of 1..3 frames, handshake succeeds or fails", ""),
+		}})
+	poC12 := func(p *PathResult, po *PO) []POFinding {
+		var out []POFinding
+		stops := po.find(kindIs("h:Stop.return"))
+		runs := po.find(kindIs("h:Run.return"))
+		if len(stops) == 0 || len(runs) == 0 {
+			return nil
+		}
+		targets := map[string][]int{
+			"OnClose completes after Stop and Run returned":        po.find(kindIs("h:OnClose.exit")),
+			"socket closed after Stop and Run returned":            po.find(kindIs("close")),
+			"handler still running after Stop and Run returned":    po.find(kindIs("h:handler.exit")),
+			"listener closed only after Stop and Run returned":     po.find(kindIs("listener.close")),
+			"connection accepted after Stop and Run returned":      po.find(kindIs("accept")),
+		}
+		for name, idx := range targets {
+			for _, x := range idx {
+				if name == "listener closed only after Stop and Run returned" {
+					// only the FIRST close matters: ask whether every close can come after both returns
+					continue
+				}
+				v, order := po.Query(lt(stops[0], x), lt(runs[0], x))
+				if v == Sat {
+					out = append(out, POFinding{Key: name, Detail: name + ": a consistent reordering of the recorded events puts it after both returns", Order: po.Describe(order)})
+					break
+				}
+			}
+		}
+		if lc := targets["listener closed only after Stop and Run returned"]; len(lc) > 0 {
+			var extra []string
+			for _, x := range lc {
+				extra = append(extra, lt(stops[0], x), lt(runs[0], x))
+			}
+			if v, order := po.Query(extra...); v == Sat {
+				out = append(out, POFinding{Key: "listener open after Stop and Run returned", Detail: "every close of the listener can be ordered after both returns", Order: po.Describe(order)})
+			}
+		}
+		return out
+	}
+	add(&PropertySpec{ID: "C07",
+		Functions: "(*Server).Run (accept loop), Run$1 and its deferred recover/teardown, (*conn).serveRequests, serveRequests$1 and its recover, (*Mux).serve, (*ResponseWriter).Write",
+		Outside:   []string{"one fault per scenario, one victim and one bystander connection", "a client that stops reading is covered under C11 (its handler blocks in Write)", "panics in gldap's own decoding are excluded by C02"},
+		Harnesses: []HarnessSpec{
+			eng("H_C07_faults", "faults", "8 fault kinds (handler panic on a request goroutine, in the StartTLS / unbind / default-route handler, connection reset, malformed frame, failed write, temporary Accept error) x spawn-order schedules", ""),
+		}})
+	add(&PropertySpec{ID: "C09",
+		Functions: "(*Server).Run (accept loop, connID/localConnID), Run$1, newConn, (*Request).ConnectionID, OnClose callback",
+		Outside:   []string{"more than 3 connections / 2 requests each; more than 2^63 accepts", "the inductive step from an arbitrary counter value is replaced by 3 unrolled iterations under every spawn-order schedule (which is what separates the per-iteration copy from the loop variable)"},
+		Harnesses: []HarnessSpec{
+			eng("H_C09_ids", "ids", "1..2 connections x 1..2 requests, every child-first/spawner-first choice at each go statement", "quick"),
+			eng("H_C09_ids3", "ids", "1..3 connections x 1..2 requests, every child-first/spawner-first choice at each go statement", "thorough"),
+		}})
+	add(&PropertySpec{ID: "C11",
+		Functions: "(*Server).Stop, (*Server).Run, Run$1 incl. the shutdown watcher, (*conn).serveRequests (shutdown branch), (*conn).close",
+		Outside:   []string{"'bounded time' is decided as termination that needs no client action (no wall-clock figure)", "one connection per scenario (Stop waits on a counter; connections do not interact)"},
+		Harnesses: []HarnessSpec{
+			eng("H_C11_stop", "stopped", "connection state at Stop: none, idle, TLS handshake pending, pipelining then idle, not reading its responses; with/without read timeout; optional concurrent second Stop", ""),
+		}})
+	add(&PropertySpec{ID: "C12",
+		Functions: "(*Server).Stop, (*Server).Run, Run$1 teardown (close, OnClose, connWg.Done), (*conn).close",
+		Outside:   []string{"one connection, one request; the partial-order queries range over all reorderings of each explored trace that keep every thread's observations (maximal causal model), not over traces with different control flow than the explored ones"},
+		Harnesses: []HarnessSpec{
+			{Name: "H_C12_orders", Reach: []string{"orders"}, PO: poC12,
+				Bound: "Stop before Run / between Listen and the first Accept / right after Accept / during traffic; slow handler and slow OnClose held by gates; Stop twice; spawn-order schedules; per trace: can OnClose.exit, close, handler.exit, accept or every listener close be ordered after both Stop.return and Run.return?"},
+		}})
+	add(&PropertySpec{ID: "C17",
+		Functions: "(*Server).Run (validateAddrPort, Listen, listenerReady), (*Server).Ready, (*Server).Stop",
+		Outside:   []string{"address forms: the ten rows listed in the harness; the resolver's answer and Listen's outcome are symbolic", "after Stop the flag is not required to drop (the property speaks of the interval until Stop is called)"},
+		Harnesses: []HarnessSpec{
+			eng("H_C17_ready", "run ok", "10 address forms x resolver answer x Listen outcome x 0..2 concurrent Ready pollers x spawn-order schedules", ""),
+		}})
 	add(&PropertySpec{ID: "C02",
 		Functions: "(*conn).readRequest, (*conn).readPacket, newRequest, newMessage, (*packet).{basicValidation,requestPacket,requestType,requestMessageID,simpleBindParameters,searchParmeters,modifyParameters,addParameters,deleteParameters,extendedOperationName,controlPacket,assert,assertApplicationRequest}, decodeControl, decodeAttribute, NewControl*",
 		Outside:   []string{"byte-level framing (length octets, truncation, EOC, oversize): the asn1-ber reader's error outcome by contract (DESIGN §5.1)", "panics inside asn1-ber's reader and go-ldap's DecompileFilter (it recovers)", "universal REAL and GeneralizedTime payloads (opaque values)", "trees deeper than 5 below the envelope or wider than the stated widths"},
